@@ -73,6 +73,8 @@ def _generate(rng, index, tier, extra):  # pylint: disable=unused-argument
         faults = wirefault.gen_faults(rng, raw, framer_name=None)
         if rng.random() < 0.25:
             faults += wirefault.text_faults(rng, raw)
+        if wirefault.is_text(raw) and rng.random() < 0.35:
+            faults = wirefault.token_faults(rng, raw) + (faults if rng.random() < 0.3 else [])
         if rng.random() < 0.1:
             other = rng.choice(corpus.accepted(rng.choice(paths)) or [b''])
             faults.append({'k': 'insert', 'at': rng.randrange(len(raw) + 1), 'hex': other[:64].hex()})
